@@ -240,6 +240,9 @@ pub fn c15_case(dir: &Path, n: usize, word: &[CEv]) -> Result<String, V> {
         settle(&mut model, n);
         let e0 = srv.epoch();
         srv.quiesce(e0);
+        // time passes (a minute, in two steps): whatever the server does on timers must not cost slots
+        srv.let_time_pass(31_000);
+        srv.let_time_pass(31_000);
         // many short-lived connections, each doing several commands and ending in turn by close, by
         // reset, and after a bad command: the accounting must come out even after any number of them
         let set = Req::Set(b"cyc".to_vec(), b"1".to_vec()).encode();
@@ -411,7 +414,7 @@ pub fn c15(job: &Job, sh: &mut Shard, t0: Instant) {
                 Ok(o) => sh.outcome(format!("N={} {}", n, o)),
                 Err((c, msg)) if c == "MACHINERY" => sh.machinery_errors.push(format!("C15 {}", msg)),
                 Err((c, msg)) => match c15_case(&dir, n, w) {
-                    Err((c2, _)) if c2 == c => sh.violate(Violation { class: format!("C15:{}", c), msg, case }),
+                    Err((c2, _)) if c2 == c => sh.violate(Violation { class: format!("C15:{}", c), msg: if msg.contains("max_connections") { msg } else { format!("{} | after the word {:?}, max_connections {}", msg, w, n) }, case }),
                     other => sh.machinery_errors.push(format!("C15 violation {} not reproduced ({:?}): {}", c, other.map_err(|e| e.0), msg)),
                 },
             }
